@@ -258,7 +258,15 @@ pub fn explore_range(check: &dyn Check, verif_seed: u64, tier: Tier, lo: u64, n:
                                 let mut ctx = Ctx { stats: &mut stats, slot: &slots[w], tier, journal };
                                 // calls into rtcp-types are guarded inside the episode; an unwind that
                                 // reaches this point comes from the harness itself
+                                // the other party on this thread (see ambient.rs): reseeded, and everything
+                                // it held dropped, at the start of every episode
+                                crate::ambient::arm(seed);
                                 let r = crate::guard::guarded(|| check.run_episode(seed, idx, &mut ctx, &mut viols));
+                                let amb = crate::ambient::disarm();
+                                if amb > 0 {
+                                    ctx.stats.fault("ambient-session-steps", amb);
+                                    ctx.stats.count("episodes_with_an_ambient_session", 1);
+                                }
                                 if let Err(p) = r {
                                     println!("# harness error: panic in harness code, property {} episode {}: {} at {}", check.id(), idx, p.msg, p.loc);
                                     std::process::exit(2);
